@@ -70,7 +70,7 @@ func newMachine(ld *Loaded, cfg *HarnessCfg, s, s2 *Solver, prefix []Decision) *
 		asserts: map[string]*AssertStat{}, reached: map[string]int{},
 		funcs: map[*ssa.Function]int{}, intercepts: map[string]int{},
 		nameCount: map[string]int{}, chosen: map[string]int64{}, errCache: map[string]Value{},
-		builders: map[*Obj]string{}, bufBlobs: map[*Obj]*Blob{},
+		builders: map[*Obj]string{}, knownConds: map[string]bool{}, bufBlobs: map[*Obj]*Blob{},
 		clock:    mkInt(1600000000000000000),
 	}
 }
